@@ -1,0 +1,147 @@
+// Verification hooks (cargo feature `verif`, off by default).
+//
+// Nothing in this module is compiled unless the feature is enabled, and enabling the feature
+// without installing a simulated clock changes no behaviour: `SimInstant` then wraps
+// `std::time::Instant`.
+
+//! Simulated clock used by the deterministic-simulation harness.
+//!
+//! The clock is thread-local. While a clock is installed on the current thread every
+//! `SimInstant::now()` / `SimInstant::elapsed()` is a *read*: it first advances the simulated
+//! time by the configured tick (or by the next entry of an explicit per-read schedule), then
+//! reports the read to an optional observer and returns the simulated time. The harness can
+//! additionally advance the time from inside the user callbacks it owns (`advance`).
+
+use std::cell::RefCell;
+use std::time::Duration;
+
+struct ClockState {
+    now_ns: u64,
+    tick_ns: u64,
+    reads: u64,
+    schedule: Vec<u64>,
+    observer: Option<Box<dyn FnMut(u64, u64)>>,
+}
+
+thread_local! {
+    static CLOCK: RefCell<Option<ClockState>> = const { RefCell::new(None) };
+    static ENV_CHECKED: RefCell<bool> = const { RefCell::new(false) };
+}
+
+/// Installs a simulated clock on the current thread, starting at `t = 0`.
+///
+/// `tick_ns` is added on every read; `schedule[i]`, when present, replaces the tick of the i-th
+/// read.
+pub fn install(tick_ns: u64, schedule: Vec<u64>) {
+    CLOCK.with(|c| {
+        *c.borrow_mut() = Some(ClockState {
+            now_ns: 0,
+            tick_ns,
+            reads: 0,
+            schedule,
+            observer: None,
+        })
+    });
+}
+
+/// Registers a function called as `f(read_index, now_ns)` on every clock read.
+pub fn set_observer(f: Option<Box<dyn FnMut(u64, u64)>>) {
+    CLOCK.with(|c| {
+        if let Some(s) = c.borrow_mut().as_mut() {
+            s.observer = f;
+        }
+    });
+}
+
+/// Removes the simulated clock from the current thread.
+pub fn uninstall() {
+    CLOCK.with(|c| *c.borrow_mut() = None);
+}
+
+/// Whether a simulated clock is installed on the current thread.
+pub fn installed() -> bool {
+    CLOCK.with(|c| c.borrow().is_some())
+}
+
+/// Advances the simulated time without counting a read (saturating).
+pub fn advance(ns: u64) {
+    CLOCK.with(|c| {
+        if let Some(s) = c.borrow_mut().as_mut() {
+            s.now_ns = s.now_ns.saturating_add(ns);
+        }
+    });
+}
+
+/// Current simulated time; `None` when no clock is installed.
+pub fn now_ns() -> Option<u64> {
+    CLOCK.with(|c| c.borrow().as_ref().map(|s| s.now_ns))
+}
+
+/// Number of clock reads since `install`.
+pub fn reads() -> u64 {
+    CLOCK.with(|c| c.borrow().as_ref().map(|s| s.reads).unwrap_or(0))
+}
+
+fn maybe_install_from_env() {
+    ENV_CHECKED.with(|e| {
+        if *e.borrow() {
+            return;
+        }
+        *e.borrow_mut() = true;
+        if installed() {
+            return;
+        }
+        if let Ok(v) = std::env::var("OXMPL_VERIF_CLOCK_TICK_NS") {
+            if let Ok(tick) = v.trim().parse::<u64>() {
+                install(tick, Vec::new());
+            }
+        }
+    });
+}
+
+fn read() -> Option<u64> {
+    maybe_install_from_env();
+    CLOCK.with(|c| {
+        let mut guard = c.borrow_mut();
+        let s = guard.as_mut()?;
+        let step = s
+            .schedule
+            .get(s.reads as usize)
+            .copied()
+            .unwrap_or(s.tick_ns);
+        s.now_ns = s.now_ns.saturating_add(step);
+        let idx = s.reads;
+        s.reads += 1;
+        let now = s.now_ns;
+        if let Some(obs) = s.observer.as_mut() {
+            obs(idx, now);
+        }
+        Some(now)
+    })
+}
+
+/// Drop-in replacement for `Instant` inside the planners' timed functions.
+#[derive(Clone, Copy, Debug)]
+pub enum SimInstant {
+    Virtual(u64),
+    Real(crate::time::Instant),
+}
+
+impl SimInstant {
+    pub fn now() -> Self {
+        match read() {
+            Some(t) => SimInstant::Virtual(t),
+            None => SimInstant::Real(crate::time::Instant::now()),
+        }
+    }
+
+    pub fn elapsed(&self) -> Duration {
+        match self {
+            SimInstant::Virtual(t0) => {
+                let now = read().unwrap_or(*t0);
+                Duration::from_nanos(now.saturating_sub(*t0))
+            }
+            SimInstant::Real(i) => i.elapsed(),
+        }
+    }
+}
